@@ -40,7 +40,7 @@ META = {
     "assumptions": ["integer field values bounded to 0..3 (MergeForbiddenError formats both values, CrossHair realises them one by one)",
                     "handlers are pure functions of (left, right, ports); Storage/Device are in-memory stand-ins implementing annet.storage protocols",
                     "Unite fields use selector-chosen small sets (set hashing)"],
-    "outside": ["netbox adapters and real Device classes", "topologies with more than 3 devices / 2 parallel links",
+    "outside": ["netbox adapters and real Device classes", "topologies other than: leaf-spine-rr with 0..2 parallel links (exec), two devices matched by both masks of a rule (exec.symmetric), a hub with three leaves (exec.hub)",
                 "concatenated tuple order (compared as multisets, as the property allows)"],
     "bounds": {},
 }
